@@ -341,6 +341,7 @@ type ArbMember struct {
 	Weight  uint32 `json:"w"`
 	Arbiter bool   `json:"a,omitempty"`
 	Log     int    `json:"l"` // ordinal of the member's log position (larger = newer; the ids wrap between 1 and 2)
+	Leader  bool   `json:"leader,omitempty"` // this member is a live leader; all the others have just been restarted from their saved metadata (they hold no role for it yet and learn it from its replies only)
 	StaleBy int    `json:"s,omitempty"` // every member's CACHED view of this member's position (its own included) lags its real log by this many ordinals (the last status poll is older than the last entry)
 }
 
